@@ -1049,6 +1049,14 @@ pub fn gen_cap_server(tapes: &[Vec<u32>]) -> RawCase {
     for i in 0..k {
         script.push(hdr(2 * i as u32 + 1, "GET", true));
     }
+    // the peer may lower its initial window after the requests have arrived and before the application answers them
+    // (streams whose send half has not started yet)
+    let mut start_delay = 0usize;
+    if !return_variant && !zero_start && t.chance(1, 5) {
+        start_delay = 60 + t.below(60);
+        script.push(PStep::Barrier);
+        script.push(fr(Frame::Settings { ack: false, params: vec![(4, *t.pick(&[100u32, 1000]))] }));
+    }
     if zero_start {
         for i in 0..k {
             script.push(fr(Frame::WinUp { stream: 2 * i as u32 + 1, inc: peer_iw, inc_r: false }));
@@ -1059,6 +1067,7 @@ pub fn gen_cap_server(tapes: &[Vec<u32>]) -> RawCase {
     let mut grant = *t.pick(&[Grant::Eager, Grant::Threshold(10000), Grant::Drip(500)]);
     let mut item = "truth";
     let mut blind_waiter: Option<(usize, usize)> = None;
+    let mut out_cap: Option<usize> = None;
     if settings_variant {
         // no connection-level grant ever; several streams hold assigned capacity when the peer lowers (and later
         // restores) SETTINGS_INITIAL_WINDOW_SIZE: what is taken from them must come back to the pool
@@ -1141,6 +1150,32 @@ pub fn gen_cap_server(tapes: &[Vec<u32>]) -> RawCase {
         }
         ops.push(CapOp::Census);
         script.push(PStep::Yield(600));
+    } else if return_variant && t.chance(1, 5) {
+        // the peer resets a stream that holds the whole connection window for body data it could not write yet (the
+        // endpoint's writes are blocked) and that is still queued for more: everything it held goes to the other stream
+        grant = Grant::Never;
+        cfg.max_send_buffer = Some(1 << 20);
+        item = "return:peer-reset-with-unwritten-data";
+        out_cap = Some(*t.pick(&[64usize, 256, 2000]));
+        let (a, b) = (0usize, 1usize);
+        ops.push(CapOp::Reserve { s: a, n: 90000 + t.below(20000) });
+        ops.push(CapOp::WaitCap { s: a });
+        ops.push(CapOp::Send { s: a, n: 70000 + t.below(20000) });
+        ops.push(CapOp::Reserve { s: b, n: 1 + t.below(30000) });
+        ops.push(CapOp::Yield(300));
+        ops.push(CapOp::WaitCap { s: b });
+        ops.push(CapOp::SendCap { s: b });
+        ops.push(CapOp::Census);
+        ops.push(CapOp::Reserve { s: b, n: 1 << 20 });
+        ops.push(CapOp::Yield(300));
+        ops.push(CapOp::CensusFinal);
+        // (the peer stops reading before the application starts: inserted right after the requests)
+        script.push(PStep::Reading(false));
+        script.push(PStep::Yield(60 + t.below(60)));
+        script.push(fr(Frame::Rst { stream: 1, code: 8 }));
+        script.push(PStep::Yield(10 + t.below(40)));
+        script.push(PStep::Reading(true));
+        script.push(PStep::Yield(900));
     } else if return_variant {
         // nothing is ever granted: the 65535 bytes of connection window are all there is
         grant = Grant::Never;
@@ -1269,9 +1304,9 @@ pub fn gen_cap_server(tapes: &[Vec<u32>]) -> RawCase {
     script.push(PStep::Barrier);
     let spec = RawSpec { peer_settings: vec![(4, if zero_start { 0 } else { peer_iw })], script, grant, close_at_end: true };
     let mut b = base(&mut t, tapes, cfg, vec![]);
-    b.cap = Some(CapProgram { streams: k, ops });
+    b.cap = Some(CapProgram { streams: k, ops, start_delay });
     let inj = Inject { item: item.into(), state: format!("{}-streams", k), class: Class::Either, stream: 0, basis: "SendStream::{reserve_capacity, capacity, poll_capacity} documentation".into(), never_surface: vec![], must_deliver: vec![], must_deliver_streams: blind_waiter.map(|(sx, n)| vec![(2 * sx as u32 + 1, n)]).unwrap_or_default(), no_head: vec![], no_clean_end: vec![], prop: "C16".into(), wire_optional: true };
-    RawCase { h2_side: Side::Server, base: b, spec, inject: Some(inj), probe_stream: 0, e_out_cap: None }
+    RawCase { h2_side: Side::Server, base: b, spec, inject: Some(inj), probe_stream: 0, e_out_cap: out_cap }
 }
 
 pub fn check_c16(case: &RawCase, rr: &RawRun, tap: &Tap, out: &mut Outcome) {
@@ -1456,6 +1491,9 @@ impl Engine for CapEngine {
         let mut out = Outcome::default();
         common_raw_oracles(case, &rr, &an, &mut out);
         check_c16(case, &rr, &an.tap, &mut out);
+        // capacity that was reported and spent beyond what the peer's windows allow was not usable capacity
+        let extra: Vec<Violation> = out.violations.iter().filter(|v| v.property == "C02").map(|v| Violation::new("C16", &v.oracle, format!("C16/assigned-capacity-not-backed-by-window/{}", v.signature), v.detail.clone())).collect();
+        out.violations.extend(extra);
         out.note = format!("{} wire frames, end={:?}, script_done={}", an.tap.frames.len(), rr.run.end, rr.obs.script_done);
         out
     }
